@@ -27,6 +27,7 @@ import (
 	"github.com/hashicorp/nodeenrollment/registration"
 	"github.com/hashicorp/nodeenrollment/rotation"
 	"github.com/hashicorp/nodeenrollment/storage/inmem"
+	nodetls "github.com/hashicorp/nodeenrollment/tls"
 	"github.com/hashicorp/nodeenrollment/types"
 	"google.golang.org/protobuf/proto"
 	"google.golang.org/protobuf/reflect/protoreflect"
@@ -121,6 +122,8 @@ type sealedScn struct {
 	reached  bool // a wrapped store was inspected and a round trip compared
 	rtDone   bool
 	failed   string
+	// certificate keys of harness-built node records, by PKIX bytes (to sign as that node)
+	nodeKeys map[string]*world.Keys
 }
 
 func (x *sealedScn) close() {
@@ -801,6 +804,7 @@ func (x *sealedScn) setLoads(sw wrapping.Wrapper, X, Y *types.NodeInformation) {
 		r.Broken(fmt.Sprintf("sealed: raw load: %v %v", errA, errB))
 		return
 	}
+	setRoots := false
 	for _, f := range sealedFields(sealedNI) {
 		src := f.get(rawA)
 		if len(src) == 0 || bytes.Equal(src, f.get(A)) || len(f.get(rawB)) == 0 {
@@ -814,6 +818,31 @@ func (x *sealedScn) setLoads(sw wrapping.Wrapper, X, Y *types.NodeInformation) {
 		}
 		r.Count("set_transplants_attempted", 1)
 		set, err := load(nodeenrollment.WithStorageWrapper(sw))
+		// the same through the flow that reads the records of a node ID: a connecting node that names this ID
+		// and signs with the key of the edited record. The roots are there and sealed under the same wrapper;
+		// the records of the node are not all intact, so nothing is minted for it.
+		if kb := x.nodeKeys[string(B.CertificatePublicKeyPkix)]; kb != nil {
+			if !setRoots {
+				if _, rerr := rotation.RotateRootCertificates(x.ctx, ol, nodeenrollment.WithStorageWrapper(sw)); rerr == nil {
+					setRoots = true
+				}
+			}
+			if setRoots {
+				nonce := world.RandBytes(nodeenrollment.NonceSize)
+				greq := &types.GenerateServerCertificatesRequest{CertificatePublicKeyPkix: kb.Pkix, Nonce: nonce, NonceSignature: ed25519.Sign(kb.Priv, nonce), NodeId: nid, CommonName: nodeenrollment.CommonDnsName}
+				var gresp *types.GenerateServerCertificatesResponse
+				var gerr error
+				if p, st := engine.Guard(func() {
+					gresp, gerr = nodetls.GenerateServerCertificates(x.ctx, ol, greq, nodeenrollment.WithStorageWrapper(sw))
+				}); p != nil {
+					r.Violation("panic:"+engine.LibraryFrame(st), fmt.Sprintf("GenerateServerCertificates panicked: %v", p), wit("transplant of "+f.name))
+				} else if gerr == nil && gresp != nil {
+					r.Violation("certificates-minted-from-a-transplanted-record:"+f.name, fmt.Sprintf("sealed field %s of one record was copied into another record of the same node ID; LoadNodeInformationSetByNodeId refuses that set (err=%v), yet GenerateServerCertificates for a request naming the node ID and signed with the edited record's key succeeds: the flow reads the records without opening them", f.name, err), wit("transplant of "+f.name))
+				} else {
+					r.Count("set_transplants_refused_by_certificate_generation", 1)
+				}
+			}
+		}
 		if err == nil {
 			n := 0
 			if set != nil {
@@ -878,6 +907,10 @@ func (x *sealedScn) bundles(k *world.Keys) []*types.CertificateBundle {
 func (x *sealedScn) makeInfo(withPrev bool) *types.NodeInformation {
 	sc := x.sc
 	k, nodeEnc, srvEnc := world.NewKeys(), world.NewX25519(), world.NewX25519()
+	if x.nodeKeys == nil {
+		x.nodeKeys = map[string]*world.Keys{}
+	}
+	x.nodeKeys[string(k.Pkix)] = k
 	ni := &types.NodeInformation{
 		Id:                              k.KeyID,
 		CertificatePublicKeyPkix:        k.Pkix,
